@@ -737,19 +737,6 @@ def pattern_shli32_1_(context, tree, c0):
 
 @rvcisa.pattern(
     "reg",
-    "SHLI32(CONSTI32, reg)",
-    size=1,
-    condition=lambda t: t.children[0].value < 16,
-)
-def pattern_shli32_2(context, tree, c0):
-    d = context.new_reg(RiscvRegister)
-    c1 = tree.children[0].value
-    context.emit(Slliv(d, c0, c1))
-    return d
-
-
-@rvcisa.pattern(
-    "reg",
     "SHRI32(reg, CONSTI32)",
     size=1,
     condition=lambda t: t.children[1].value < 16,
@@ -757,19 +744,6 @@ def pattern_shli32_2(context, tree, c0):
 def pattern_shri32(context, tree, c0):
     d = context.new_reg(RiscvRegister)
     c1 = tree.children[1].value
-    context.emit(Srliv(d, c0, c1))
-    return d
-
-
-@rvcisa.pattern(
-    "reg",
-    "SHRI32(CONSTI32, reg)",
-    size=1,
-    condition=lambda t: t.children[0].value < 16,
-)
-def pattern_stri32_const(context, tree, c0):
-    d = context.new_reg(RiscvRegister)
-    c1 = tree.children[0].value
     context.emit(Srliv(d, c0, c1))
     return d
 
